@@ -444,6 +444,29 @@ def build_fn(u, fs, log, probe=False):
         a, b = cls[n - 1]
         ins.append((a, "replace_to:%d" % b, text + " "))
         log.append({"rule": "R10", "fn": fs.path, "closure": n})
+        # R10b: a closure header with a declared return type needs a block body (Rust syntax): an expression
+        # body `|x| e` becomes `|x| -> (r: T) .. { e }`.  The tokens of `e` are untouched.
+        if "->" in text:
+            j = b + 1
+            while j < len(btoks) and btoks[j].kind in ("ws", "comment", "doc"):
+                j += 1
+            if j < len(btoks) and not (btoks[j].kind == "punct" and btoks[j].text == "{"):
+                first = j
+                last = None
+                while j < len(btoks):
+                    t = btoks[j]
+                    if t.kind == "punct" and t.text in rl.OPEN:
+                        j = rl.match_close(btoks, j)
+                    elif t.kind == "punct" and (t.text in rl.CLOSE or t.text in (",", ";")):
+                        break
+                    if btoks[j].kind not in ("ws", "comment", "doc"):
+                        last = j
+                    j += 1
+                if last is None:
+                    raise Undecided("closure %d of %s: cannot delimit the expression body" % (n, fs.path))
+                ins.append((first, "before", "{ "))
+                ins.append((last, "after", " }"))
+                log.append({"rule": "R10b", "fn": fs.path, "closure": n})
     lost = []
     entry_hints = ""
     for where, anchor, text in fs.hints:
